@@ -6,7 +6,7 @@ import vlib, re
 
 def run(chk):
     exe = vlib.build_harness('release')
-    res = vlib.tlc('MC_GF256', workers=8, xss='64m', timeout=900, tag='MC_GF256', coverage=not chk.quick)
+    res = vlib.tlc('MC_GF256', workers=8, xss='64m', xmx='8g', timeout=900, tag='MC_GF256')
     vlib.expect_mc_ok(chk, res, 'MC_GF256')
     trace = vlib.workfile('c10_gf256.ndjson')
     rc, out = vlib.run_drv(exe, ['gf256', '--out', trace, '--tier', chk.tier])
